@@ -109,7 +109,7 @@ def reference(op, L, R, D, P):
         fa, fb = np.abs(series_data(L, p, D)), np.abs(series_data(R, p, D))
         if op == 'add':
             r = a + b
-            s = np.array([np.broadcast_arrays(fa[d] + fb[d])[0] for d in range(D)])
+            s = np.array([fa[d] + fb[d] for d in range(D)])
         elif op == 'sub':
             r = a - b
             s = np.array([fa[d] + fb[d] for d in range(D)])
